@@ -24,11 +24,16 @@ SRCS = {
     'tree-opts': '<dtml-tree root branches_expr="kids()" sort=tpId reverse header=hd footer=ft nowrap=1 prefix=tp>'
                  'R:<dtml-var tpId>;</dtml-tree>|<dtml-var probe>',
 }
+# documents named by leaves= / expand= / header= / footer=, present in the namespace or not (the tag tolerates a missing one)
+SRCS['tree-leaves-missing'] = '<dtml-tree root branches=kids leaves=nolf>R:<dtml-var tpId>;</dtml-tree>|<dtml-var probe>'
+SRCS['tree-expand-missing'] = '<dtml-tree root branches=kids expand=noex header=nohd footer=noft>R:<dtml-var tpId>;</dtml-tree>|<dtml-var probe>'
+SRCS['tree-leaves-expand'] = ('<dtml-tree root branches_expr="kids()" leaves=lfdoc header=lfdoc>R:<dtml-var tpId>;</dtml-tree>|'
+                              '<dtml-tree root branches=kids expand=lfdoc>R:<dtml-var tpId>;</dtml-tree>|<dtml-var probe>')
 # the same call with a client: none, one object, a tuple ("path") of 0..3 objects -- every client is one frame to pop
 _CLIENT_SRC = '<dtml-var nid>|<dtml-in outer><dtml-var f1><dtml-var tpId></dtml-in>|<dtml-with o><dtml-var f1></dtml-with>|<dtml-var probe>'
 for _k in ('0', '1', '1t', '2', '3'):
     SRCS['clients-' + _k] = _CLIENT_SRC
-MODES = [{}, {'expand_all': 1}, {'collapse_all': 1}, 'cookie', 'click']
+MODES = [{}, {'expand_all': 1}, {'collapse_all': 1}, 'cookie', 'click', 'expleaf']
 
 
 class Fault(Exception):
@@ -127,7 +132,7 @@ def run(src_name, mode, at, kind):
             tick()
             return 'F'
     base = {'URL': 'http://h/doc', 'RESPONSE': resp, 'root': root, 'probe': 'outer-probe', 'f1': F(), 'outer': [1, 2],
-            'o': Node('o'), 'hd': 'H', 'ft': 'F'}
+            'o': Node('o'), 'hd': 'H', 'ft': 'F', 'lfdoc': HTML('L:<dtml-var tpId><dtml-var f1>;')}
     kw = {}
     if mode in ('cookie', 'click'):
         # a first, fault-free request to obtain a cookie (and a link)
@@ -140,6 +145,9 @@ def run(src_name, mode, at, kind):
         if mode == 'click':
             from TreeDisplay.TreeTag import encode_seq
             kw['tree-c'] = encode_seq(['n1', 'n2'])
+    elif mode == 'expleaf':
+        from TreeDisplay.TreeTag import encode_seq
+        kw['tree-e'] = encode_seq(['n1', 'n3', 'n7'])          # the expand link of a childless node (leaves=)
     elif mode:
         kw.update(mode)
     md = TemplateDict()
